@@ -20,6 +20,15 @@ class IllDefined(Discard):
         Discard.__init__(self, "ill-defined:" + why)
 
 
+import re as _re
+_PARSEABLE = _re.compile(r"^(<\w+>)?[A-Za-z_]\w*$")
+
+
+def parseable(name):
+    """can this name be written in a string handed to dagrt's parser?"""
+    return bool(_PARSEABLE.match(name))
+
+
 def _q(name):
     """Name as it must be written in a string handed to dagrt's parser."""
     return name
@@ -85,7 +94,7 @@ class Var(X):
         acc.append(self.name)
 
     def stringable(self):
-        return True
+        return parseable(self.name) or self.name.startswith("$")
 
 
 def _check(v):
@@ -360,7 +369,7 @@ class Sub(X):
         self.idx.vars(acc)
 
     def stringable(self):
-        return self.idx.stringable()
+        return self.idx.stringable() and parseable(self.arr)
 
 
 class Call(X):
